@@ -1681,12 +1681,16 @@ class WcParse(Generic[AnyStr]):
             # If the pattern itself starts with a `globstar`, it merges with the implicit one. The pattern's own leading
             # `globstar` was built as if it were at the start of the path and cannot guard against `/.` on its own.
             sep = _GLOBSTAR_DIV.format(self.sep)
+            dir_sep = _GLOBSTAR_DIR_DIV.format(self.sep)
             gstars = {self.path_gstar_dot1, self.path_gstar_dot2}
             gstars |= {f'({g})' for g in gstars}
             for index, value in enumerate(result):
                 if value in ('', _NO_ROOT, _NO_WIN_ROOT):
                     continue
-                if value in gstars and result[index + 1:index + 2] == [sep]:
+                if value in gstars and result[index + 1:index + 2] in ([sep], [dir_sep]):
+                    if result[index + 1] == dir_sep:
+                        # The pattern is just `**/`: the implicit `globstar` takes over its demand for a directory
+                        prepend = [dir_sep if v == sep else v for v in prepend]
                     del result[index:index + 2]
                 break
             result = prepend + result
